@@ -480,3 +480,513 @@ Example C06_first_include_wins_nonvacuous :
     C06_value "b" = Some (Leaf (SInt 20)).
 Proof. do 9 eexists. C06_check. Qed.
 
+
+(* ================================================================================================== *)
+(* added from Properties/C06_add.v (2026-10-01)                                              *)
+(* ================================================================================================== *)
+(* C06 (continued)  Include merging on KEY PATHS: precedence, completeness and include order of C06.v (top level
+   keys) composed with the path algebra of merge and clean-up (C07), for ordinary key paths at every depth of
+   nesting (proofs: Proofs/IncludeNested.v).
+
+   Vocabulary (Proofs/IncludeNested.v), for a tree t and a key path p walked through dicts (get_dpath):
+     clear_above t p   no leaf or list is met before the end of p (the walk may fall off a dict)
+     clear_upto t p    ... and t holds nothing or a dict at p itself
+     falls_off t p     ... and t holds nothing at p
+     leaf_ok p v       a TOP LEVEL leaf (p = [k]) is ordinary_leaf (not the self reference "$k" that a merge fills,
+                       C06_self_reference_is_filled); a nested leaf is arbitrary (C06_nested_self_reference_is_kept)
+     fs_wf fs          the tree of every JSON unit of fs has unique keys at every level (what json.loads returns
+                       is a Python dict; the model takes an association list).  Native units need nothing:
+                       WriteProofs.parse_string_wf.
+     reach_where fs com N ..  IncludeProofs.run_reach where at every level walked the two TARGETS the content of
+                       the reached file is merged into on its way up -- the including file's own parse [parent]
+                       and the state [temp] the loop has built from the earlier includes of that file -- satisfy N
+                       (direct_include_t = IncludeProofs.direct_include with [temp] exposed). *)
+From Coq Require Import String.   (* string literals of the examples; imported first so the list names win *)
+From Coq Require Import NArith ZArith List Bool.
+From DictIO Require Import Chars Str Value Scalar SDict Lexer TokParser Reader TreeSpec LayoutSpec SemProofs
+     IncludeProofs IncludeNested.
+Import ListNotations.
+
+(* ---- the example file system of the non-vacuity checks ---------------------------------------------
+     /r.dict (native)  includes a.json, b.json, d.json                       (root)
+     /a.json           includes c.dict
+     /c.dict (native), /b.json, /d.json   no includes
+   every file has a nested dict  sub { .. deep { .. } }  with keys shared two and three levels deep;
+   precedence order (including file, then its includes in directive order, depth first):  r  a  c  b  d *)
+Definition C06n_s (s : string) : str := of_string s.
+Definition C06n_inc (k f : string) : key * tree := (KS (C06n_s k), Leaf (SStr (C06n_s f))).
+Definition C06n_kv (k : string) (n : Z) : key * tree := (KS (C06n_s k), Leaf (SInt n)).
+Definition C06n_kd (k : string) (d : list (key * tree)) : key * tree := (KS (C06n_s k), Dict d).
+Definition C06n_p1 (a : string) : list key := [KS (C06n_s a)].
+Definition C06n_p2 (a b : string) : list key := [KS (C06n_s a); KS (C06n_s b)].
+Definition C06n_p3 (a b c : string) : list key := [KS (C06n_s a); KS (C06n_s b); KS (C06n_s c)].
+Definition C06n_fs : fsys :=
+  [ (C06n_s "/r.dict", FNative (C06n_s "#include 'a.json'
+#include 'b.json'
+#include 'd.json'
+sub { x 1; deep { p 1; } }
+"));
+    (C06n_s "/a.json", FJson [C06n_inc "#include" "c.dict";
+                              C06n_kd "sub" [C06n_kv "x" 2; C06n_kv "y" 2; C06n_kd "deep" [C06n_kv "p" 2; C06n_kv "q" 2]];
+                              C06n_kv "blk" 7]);
+    (C06n_s "/b.json", FJson [C06n_kd "sub" [C06n_kv "y" 3; C06n_kv "z" 3;
+                                             C06n_kd "deep" [C06n_kv "q" 3; C06n_kv "r" 3; C06n_kv "t" 3]];
+                              C06n_kd "blk" [C06n_kv "m" 3]]);
+    (C06n_s "/c.dict", FNative (C06n_s "sub { z 4; w 4; deep { q 4; r 4; s 4; } only { u 4; } }
+blk { m 4; }
+"));
+    (C06n_s "/d.json", FJson [C06n_kd "sub" [C06n_kd "deep" [C06n_kv "t" 9; C06n_kv "p" 9]]]) ].
+Definition C06n_root : str := C06n_s "/r.dict".
+Definition C06n_dummy : parsed := mkParsed sd_empty 0%Z.
+Definition C06n_parse (path : string) (c : Z) : parsed :=
+  match fs_lookup (norm_path (C06n_s path)) C06n_fs with
+  | Some u => match parse_unit true (C06n_s path) c u with Ok pr => pr | Raise _ => C06n_dummy end
+  | None => C06n_dummy
+  end.
+Definition C06n_pr0 : parsed := C06n_parse "/r.dict" (-1)%Z.
+Definition C06n_at (p : list key) : option tree :=
+  match read_plain C06n_fs C06n_root true true (-1)%Z with
+  | Ok (s, _) => get_dpath (Dict (sd_data s)) p
+  | Raise _ => None
+  end.
+(* what the model returns on it *)
+Example C06n_example_result :
+  fs_wf C06n_fs = true /\
+  (exists s c', read_plain C06n_fs C06n_root true true (-1)%Z = Ok (s, c') /\
+     remove_include_keys (sd_data s) =
+       [C06n_kd "sub" [C06n_kv "x" 1;
+                       C06n_kd "deep" [C06n_kv "p" 1; C06n_kv "q" 2; C06n_kv "r" 4; C06n_kv "s" 4; C06n_kv "t" 3];
+                       C06n_kv "y" 2; C06n_kv "z" 4; C06n_kv "w" 4; C06n_kd "only" [C06n_kv "u" 4]];
+        C06n_kv "blk" 7]).
+Proof. split; [vm_compute; reflexivity|]. do 2 eexists. split; vm_compute; reflexivity. Qed.
+
+(* conjuncts are checked from left to right (an existential witness is fixed by the first equation that mentions
+   it); [C06n_keep] keeps each checked conjunct as a hypothesis, for the application of the theorem at the end *)
+Ltac C06n_check :=
+  cbv zeta;
+  repeat match goal with
+         | |- _ /\ _ => split; [solve [vm_compute; first [reflexivity | discriminate]] | ]
+         end;
+  vm_compute; repeat match goal with |- _ /\ _ => split end; first [reflexivity | discriminate].
+Ltac C06n_direct k :=
+  match goal with
+  | |- direct_include_t _ _ _ _ ?parent _ _ _ _ =>
+      let pre := eval vm_compute in (firstn k (sd_inc parent)) in
+      exists pre; do 6 eexists; C06n_check
+  end.
+Ltac C06n_keep tac :=
+  match goal with
+  | |- ?A /\ _ => let H := fresh "Hyp" in assert (H : A) by tac; split; [exact H|]
+  end.
+Ltac C06n_vm := solve [vm_compute; first [reflexivity | discriminate]].
+
+(* ---- 1. PRECEDENCE on key paths: the including file wins ------------------------------------------- *)
+Theorem C06_including_file_wins_deep : forall fs root com c u pr s c' p v,
+  fs_wf fs = true ->
+  fs_lookup (norm_path root) fs = Some u -> parse_unit com root c u = Ok pr ->
+  read_plain fs root true com c = Ok (s, c') ->
+  forallb ordinary_key p = true -> leaf_ok p v = true ->
+  get_dpath (Dict (sd_data (pr_sd pr))) p = Some (Leaf v) ->
+  get_dpath (Dict (sd_data s)) p = Some (Leaf v).
+Proof. exact including_file_wins_deep. Qed.
+Print Assumptions C06_including_file_wins_deep.
+Example C06_including_file_wins_deep_nonvacuous :
+  (* sub.deep.p is 1 in the root, 2 in a.json, 9 in d.json *)
+  let p := C06n_p3 "sub" "deep" "p" in
+  exists u pr s c',
+    fs_wf C06n_fs = true /\
+    fs_lookup (norm_path C06n_root) C06n_fs = Some u /\ parse_unit true C06n_root (-1)%Z u = Ok pr /\
+    read_plain C06n_fs C06n_root true true (-1)%Z = Ok (s, c') /\
+    forallb ordinary_key p = true /\ leaf_ok p (SInt 1) = true /\
+    get_dpath (Dict (sd_data (pr_sd pr))) p = Some (Leaf (SInt 1)) /\
+    get_dpath (Dict (sd_data (pr_sd (C06n_parse "/a.json" 2%Z)))) p = Some (Leaf (SInt 2)) /\
+    get_dpath (Dict (sd_data s)) p = Some (Leaf (SInt 1)).
+Proof.
+  intro p. do 4 eexists. do 8 C06n_keep C06n_vm.
+  eapply C06_including_file_wins_deep; eassumption.
+Qed.
+
+(* at every level of the recursion (any chain, any fuel); only the parent has to have unique keys *)
+Theorem C06_including_file_wins_rec_deep : forall f fs com chain parent count s c' p v,
+  merge_includes_rec f fs com chain parent count = Ok (s, c') ->
+  wf (Dict (sd_data parent)) = true ->
+  forallb ordinary_key p = true -> leaf_ok p v = true ->
+  get_dpath (Dict (sd_data parent)) p = Some (Leaf v) ->
+  get_dpath (Dict (sd_data s)) p = Some (Leaf v).
+Proof. exact including_file_wins_rec_deep. Qed.
+Print Assumptions C06_including_file_wins_rec_deep.
+Example C06_including_file_wins_rec_deep_nonvacuous :
+  (* a.json as the parent of the sub-run below the root: its sub.deep.q = 2 beats c.dict's sub.deep.q = 4 *)
+  let p := C06n_p3 "sub" "deep" "q" in
+  let parent := pr_sd (C06n_parse "/a.json" 2%Z) in
+  exists s c',
+    merge_includes_rec 5 C06n_fs true [C06n_s "/a.json"] parent 3%Z = Ok (s, c') /\
+    wf (Dict (sd_data parent)) = true /\
+    forallb ordinary_key p = true /\ leaf_ok p (SInt 2) = true /\
+    get_dpath (Dict (sd_data parent)) p = Some (Leaf (SInt 2)) /\
+    get_dpath (Dict (sd_data (pr_sd (C06n_parse "/c.dict" 3%Z)))) p = Some (Leaf (SInt 4)) /\
+    get_dpath (Dict (sd_data s)) p = Some (Leaf (SInt 2)).
+Proof.
+  intros p parent. do 2 eexists. do 6 C06n_keep C06n_vm.
+  eapply C06_including_file_wins_rec_deep; eassumption.
+Qed.
+
+(* leaf_ok asks nothing of a nested leaf: the self reference test of the merge looks at top level entries only
+   (at the top level the entry is filled: C06_self_reference_is_filled) *)
+Example C06_nested_self_reference_is_kept :
+  let fs := [ (C06n_s "/a.json", FJson [C06n_inc "#include" "b.json";
+                                        C06n_kd "d" [(KS (C06n_s "x"), Leaf (SStr (C06n_s "$x")))]]);
+              (C06n_s "/b.json", FJson [C06n_kd "d" [C06n_kv "x" 5]]) ] in
+  let p := C06n_p2 "d" "x" in
+  (* what the JSON front end makes of "$x": the placeholder of the expression table entry 1 -> "$x" *)
+  let v := SStr (C06n_s "EXPRESSION000001") in
+  exists u pr s c',
+    fs_wf fs = true /\
+    fs_lookup (norm_path (C06n_s "/a.json")) fs = Some u /\ parse_unit true (C06n_s "/a.json") (-1)%Z u = Ok pr /\
+    read_plain fs (C06n_s "/a.json") true true (-1)%Z = Ok (s, c') /\
+    forallb ordinary_key p = true /\ leaf_ok p v = true /\ ordinary_leaf v = false /\
+    sd_expr (pr_sd pr) = [(1%N, (C06n_s "$x", C06n_s "EXPRESSION000001"))] /\
+    get_dpath (Dict (sd_data (pr_sd pr))) p = Some (Leaf v) /\
+    get_dpath (Dict (sd_data s)) p = Some (Leaf v).
+Proof.
+  intros fs p v. do 4 eexists. do 9 C06n_keep C06n_vm.
+  eapply C06_including_file_wins_deep; eassumption.
+Qed.
+
+(* whatever the including file holds at a path (leaf, list or dict) leads to something in the result, and a dict
+   to a dict: its keys are merged with those of the includes, theorems 2 and 3 *)
+Theorem C06_including_file_paths_kept : forall fs root com c u pr s c' p x,
+  fs_wf fs = true ->
+  fs_lookup (norm_path root) fs = Some u -> parse_unit com root c u = Ok pr ->
+  read_plain fs root true com c = Ok (s, c') ->
+  forallb ordinary_key p = true ->
+  get_dpath (Dict (sd_data (pr_sd pr))) p = Some x ->
+  exists x', get_dpath (Dict (sd_data s)) p = Some x' /\ (forall kvs, x = Dict kvs -> exists kvs', x' = Dict kvs').
+Proof. exact including_file_paths_kept. Qed.
+Print Assumptions C06_including_file_paths_kept.
+Example C06_including_file_paths_kept_nonvacuous :
+  (* the root's sub.deep = { p 1 } is a dict; in the result it is a dict with the keys of a, b and c merged in *)
+  let p := C06n_p2 "sub" "deep" in
+  exists u pr s c',
+    fs_wf C06n_fs = true /\
+    fs_lookup (norm_path C06n_root) C06n_fs = Some u /\ parse_unit true C06n_root (-1)%Z u = Ok pr /\
+    read_plain C06n_fs C06n_root true true (-1)%Z = Ok (s, c') /\
+    forallb ordinary_key p = true /\
+    get_dpath (Dict (sd_data (pr_sd pr))) p = Some (Dict [C06n_kv "p" 1]) /\
+    exists kvs', get_dpath (Dict (sd_data s)) p = Some (Dict kvs').
+Proof.
+  intro p. do 4 eexists. do 6 C06n_keep C06n_vm.
+  destruct (C06_including_file_paths_kept _ _ _ _ _ _ _ _ _ _ Hyp Hyp0 Hyp1 Hyp2 Hyp3 Hyp4) as [x' [Hx Hd]].
+  destruct (Hd _ eq_refl) as [kvs' E]. exists kvs'. rewrite Hx, E. reflexivity.
+Qed.
+
+(* ---- 2. COMPLETENESS on key paths -------------------------------------------------------------------- *)
+(* Every ordinary key path that leads to anything (leaf, list, dict) in the own parse of a reached file leads to
+   something in the result, PROVIDED no target on the way up holds a leaf or a list above the path.  The
+   condition cannot be dropped and cannot be read off the result: C06_blocked_path_finding below. *)
+Theorem C06_reachable_file_complete_deep : forall fs root com c s c' u0 pr0 f' chain' path pr p,
+  fs_wf fs = true ->
+  read_plain fs root true com c = Ok (s, c') ->
+  fs_lookup (norm_path root) fs = Some u0 -> parse_unit com root c u0 = Ok pr0 ->
+  forallb ordinary_key p = true ->
+  reach_where fs com (fun d => clear_above (Dict d) p = true)
+              (S (length fs)) [] (pr_sd pr0) (pr_count pr0) f' chain' path pr ->
+  get_dpath (Dict (sd_data (pr_sd pr))) p <> None ->
+  get_dpath (Dict (sd_data s)) p <> None.
+Proof. exact reachable_file_complete_deep. Qed.
+Print Assumptions C06_reachable_file_complete_deep.
+Example C06_reachable_file_complete_deep_nonvacuous :
+  (* c.dict is reached through a.json; only c.dict has sub.only.u *)
+  let p := C06n_p3 "sub" "only" "u" in
+  exists s c' u0 f' chain' pr,
+    fs_wf C06n_fs = true /\
+    read_plain C06n_fs C06n_root true true (-1)%Z = Ok (s, c') /\
+    fs_lookup (norm_path C06n_root) C06n_fs = Some u0 /\ parse_unit true C06n_root (-1)%Z u0 = Ok C06n_pr0 /\
+    forallb ordinary_key p = true /\
+    reach_where C06n_fs true (fun d => clear_above (Dict d) p = true)
+                (S (length C06n_fs)) [] (pr_sd C06n_pr0) (pr_count C06n_pr0) f' chain' (C06n_s "/c.dict") pr /\
+    chain' = [C06n_s "/a.json"; C06n_s "/c.dict"] /\
+    get_dpath (Dict (sd_data (pr_sd pr))) p <> None /\
+    get_dpath (Dict (sd_data s)) p <> None.
+Proof.
+  intro p. do 6 eexists. do 5 C06n_keep C06n_vm.
+  C06n_keep ltac:(eapply RW_trans; [C06n_direct 0%nat | C06n_vm | C06n_vm |
+                                    eapply RW_direct; [C06n_direct 0%nat | C06n_vm | C06n_vm]]).
+  do 2 C06n_keep C06n_vm.
+  eapply C06_reachable_file_complete_deep; eassumption.
+Qed.
+
+(* ... and to a dict where the reached file has a dict, provided no target holds a leaf or a list at the path
+   itself either (such a target wins: theorem 1 / 3) *)
+Theorem C06_reachable_file_dict_deep : forall fs root com c s c' u0 pr0 f' chain' path pr p kvs,
+  fs_wf fs = true ->
+  read_plain fs root true com c = Ok (s, c') ->
+  fs_lookup (norm_path root) fs = Some u0 -> parse_unit com root c u0 = Ok pr0 ->
+  forallb ordinary_key p = true ->
+  reach_where fs com (fun d => clear_upto (Dict d) p = true)
+              (S (length fs)) [] (pr_sd pr0) (pr_count pr0) f' chain' path pr ->
+  get_dpath (Dict (sd_data (pr_sd pr))) p = Some (Dict kvs) ->
+  exists kvs', get_dpath (Dict (sd_data s)) p = Some (Dict kvs').
+Proof. exact reachable_file_dict_deep. Qed.
+Print Assumptions C06_reachable_file_dict_deep.
+Example C06_reachable_file_dict_deep_nonvacuous :
+  (* b.json is the second include of the root; its sub.deep is a dict, as is the root's and the one the loop
+     has built from a.json and c.dict before *)
+  let p := C06n_p2 "sub" "deep" in
+  exists s c' u0 f' chain' pr kvs,
+    fs_wf C06n_fs = true /\
+    read_plain C06n_fs C06n_root true true (-1)%Z = Ok (s, c') /\
+    fs_lookup (norm_path C06n_root) C06n_fs = Some u0 /\ parse_unit true C06n_root (-1)%Z u0 = Ok C06n_pr0 /\
+    forallb ordinary_key p = true /\
+    reach_where C06n_fs true (fun d => clear_upto (Dict d) p = true)
+                (S (length C06n_fs)) [] (pr_sd C06n_pr0) (pr_count C06n_pr0) f' chain' (C06n_s "/b.json") pr /\
+    get_dpath (Dict (sd_data (pr_sd pr))) p = Some (Dict kvs) /\
+    exists kvs', get_dpath (Dict (sd_data s)) p = Some (Dict kvs').
+Proof.
+  intro p. do 7 eexists. do 5 C06n_keep C06n_vm.
+  C06n_keep ltac:(eapply RW_direct; [C06n_direct 1%nat | C06n_vm | C06n_vm]).
+  C06n_keep C06n_vm.
+  eapply C06_reachable_file_dict_deep; eassumption.
+Qed.
+
+(* FINDING (the informal "every key of every reachable file is present; nested dicts are merged key by key" is
+   false of the model and of the library).  x.json holds the leaf  a 7  and includes f.json, which holds
+   a { c 5; }: merged into x.json the dict loses against the leaf, so a.c is gone; then x.json's leaf loses
+   against the dict  a { b 1; }  of the root.  f.json is reached, [a; c] is an ordinary key path of it, the
+   result holds nothing there -- and shows no leaf above it either: the blocker is the intermediate file.
+   DictReader.read of the library returns the same  {a: {b: 1}}  (checked on the real code, JSON and native). *)
+Example C06_blocked_path_finding :
+  let fs := [ (C06n_s "/r.json", FJson [C06n_inc "#include" "x.json"; C06n_kd "a" [C06n_kv "b" 1]]);
+              (C06n_s "/x.json", FJson [C06n_inc "#include" "f.json"; C06n_kv "a" 7]);
+              (C06n_s "/f.json", FJson [C06n_kd "a" [C06n_kv "c" 5]]) ] in
+  let p := C06n_p2 "a" "c" in
+  let pr0 := json_parse (C06n_s "") (-1)%Z [C06n_inc "#include" "x.json"; C06n_kd "a" [C06n_kv "b" 1]] in
+  fs_wf fs = true /\ forallb ordinary_key p = true /\
+  (exists f' chain' pr,
+     run_reach fs true (S (length fs)) [] (pr_sd pr0) (pr_count pr0) f' chain' (C06n_s "/f.json") pr /\
+     get_dpath (Dict (sd_data (pr_sd pr))) p = Some (Leaf (SInt 5))) /\
+  (* the including file x.json is the target that is not clear above the path *)
+  clear_above (Dict (sd_data (pr_sd (json_parse (C06n_s "") 0%Z [C06n_inc "#include" "f.json"; C06n_kv "a" 7])))) p = false /\
+  match read_plain fs (C06n_s "/r.json") true true (-1)%Z with
+  | Ok (s, _) => get_dpath (Dict (sd_data s)) p = None /\
+                 get_dpath (Dict (sd_data s)) (C06n_p1 "a") = Some (Dict [C06n_kv "b" 1])
+  | Raise _ => False
+  end.
+Proof.
+  intros fs p pr0. split; [vm_compute; reflexivity|]. split; [vm_compute; reflexivity|]. split.
+  - do 3 eexists. split.
+    + eapply RR_trans.
+      * exists []. do 7 eexists. C06n_check.
+      * apply RR_direct. exists []. do 7 eexists. C06n_check.
+    + vm_compute. reflexivity.
+  - split; [vm_compute; reflexivity|]. vm_compute. split; reflexivity.
+Qed.
+
+(* ---- 3. INCLUDE ORDER on key paths ------------------------------------------------------------------- *)
+(* A leaf of a reached file is the leaf of the result when every target on the way up falls off at the path
+   (holds nothing there and no leaf or list above it): the file is then the first one in precedence order --
+   including file, then its includes in directive order, depth first -- that holds anything at or above the
+   path; whatever later files hold there is ignored. *)
+Theorem C06_first_holder_wins_deep : forall fs root com c s c' u0 pr0 f' chain' path pr p v,
+  fs_wf fs = true ->
+  read_plain fs root true com c = Ok (s, c') ->
+  fs_lookup (norm_path root) fs = Some u0 -> parse_unit com root c u0 = Ok pr0 ->
+  forallb ordinary_key p = true -> leaf_ok p v = true ->
+  reach_where fs com (fun d => falls_off (Dict d) p = true)
+              (S (length fs)) [] (pr_sd pr0) (pr_count pr0) f' chain' path pr ->
+  get_dpath (Dict (sd_data (pr_sd pr))) p = Some (Leaf v) ->
+  get_dpath (Dict (sd_data s)) p = Some (Leaf v).
+Proof. exact first_holder_wins_deep. Qed.
+Print Assumptions C06_first_holder_wins_deep.
+Example C06_first_holder_wins_deep_nonvacuous :
+  (* sub.deep.r: not in the root, not in a.json; 4 in c.dict (reached through a.json, so before b.json),
+     3 in b.json *)
+  let p := C06n_p3 "sub" "deep" "r" in
+  exists s c' u0 f' chain' pr,
+    fs_wf C06n_fs = true /\
+    read_plain C06n_fs C06n_root true true (-1)%Z = Ok (s, c') /\
+    fs_lookup (norm_path C06n_root) C06n_fs = Some u0 /\ parse_unit true C06n_root (-1)%Z u0 = Ok C06n_pr0 /\
+    forallb ordinary_key p = true /\ leaf_ok p (SInt 4) = true /\
+    reach_where C06n_fs true (fun d => falls_off (Dict d) p = true)
+                (S (length C06n_fs)) [] (pr_sd C06n_pr0) (pr_count C06n_pr0) f' chain' (C06n_s "/c.dict") pr /\
+    get_dpath (Dict (sd_data (pr_sd pr))) p = Some (Leaf (SInt 4)) /\
+    get_dpath (Dict (sd_data (pr_sd (C06n_parse "/b.json" 3%Z)))) p = Some (Leaf (SInt 3)) /\
+    get_dpath (Dict (sd_data s)) p = Some (Leaf (SInt 4)).
+Proof.
+  intro p. do 6 eexists. do 6 C06n_keep C06n_vm.
+  C06n_keep ltac:(eapply RW_trans; [C06n_direct 0%nat | C06n_vm | C06n_vm |
+                                    eapply RW_direct; [C06n_direct 0%nat | C06n_vm | C06n_vm]]).
+  do 2 C06n_keep C06n_vm.
+  eapply C06_first_holder_wins_deep; eassumption.
+Qed.
+
+(* the form of C06_earlier_include_wins: a direct include of the root, with the entries before it ([pre]) and
+   what the loop has built from them ([temp]) named *)
+Theorem C06_earlier_include_wins_deep : forall fs root com c s c' u0 pr0 pre i d n path suf temp c1 u pr p v,
+  fs_wf fs = true ->
+  read_plain fs root true com c = Ok (s, c') ->
+  fs_lookup (norm_path root) fs = Some u0 -> parse_unit com root c u0 = Ok pr0 ->
+  sd_inc (pr_sd pr0) = pre ++ (i, (d, n, path)) :: suf ->
+  fold_left (inc_step (merge_includes_rec (length fs) fs com) fs com []) pre (Ok (sd_empty, pr_count pr0)) = Ok (temp, c1) ->
+  fs_lookup (norm_path path) fs = Some u -> parse_unit com path c1 u = Ok pr ->
+  forallb ordinary_key p = true -> leaf_ok p v = true ->
+  falls_off (Dict (sd_data (pr_sd pr0))) p = true -> falls_off (Dict (sd_data temp)) p = true ->
+  get_dpath (Dict (sd_data (pr_sd pr))) p = Some (Leaf v) ->
+  get_dpath (Dict (sd_data s)) p = Some (Leaf v).
+Proof. exact earlier_include_wins_deep. Qed.
+Print Assumptions C06_earlier_include_wins_deep.
+Example C06_earlier_include_wins_deep_nonvacuous :
+  (* b.json is the second include: sub.deep.t = 3; the root, a.json and c.dict (before it) have no sub.deep.t,
+     d.json (after it) has sub.deep.t = 9 *)
+  let p := C06n_p3 "sub" "deep" "t" in
+  exists s c' u0 pr0 pre i d n suf temp c1 u pr,
+    fs_wf C06n_fs = true /\
+    read_plain C06n_fs C06n_root true true (-1)%Z = Ok (s, c') /\
+    fs_lookup (norm_path C06n_root) C06n_fs = Some u0 /\ parse_unit true C06n_root (-1)%Z u0 = Ok pr0 /\
+    pre = firstn 1 (sd_inc (pr_sd pr0)) /\
+    sd_inc (pr_sd pr0) = pre ++ (i, (d, n, C06n_s "/b.json")) :: suf /\
+    fold_left (inc_step (merge_includes_rec (length C06n_fs) C06n_fs true) C06n_fs true []) pre
+              (Ok (sd_empty, pr_count pr0)) = Ok (temp, c1) /\
+    fs_lookup (norm_path (C06n_s "/b.json")) C06n_fs = Some u /\ parse_unit true (C06n_s "/b.json") c1 u = Ok pr /\
+    forallb ordinary_key p = true /\ leaf_ok p (SInt 3) = true /\
+    falls_off (Dict (sd_data (pr_sd pr0))) p = true /\ falls_off (Dict (sd_data temp)) p = true /\
+    get_dpath (Dict (sd_data (pr_sd pr))) p = Some (Leaf (SInt 3)) /\
+    get_dpath (Dict (sd_data (pr_sd (C06n_parse "/d.json" 3%Z)))) p = Some (Leaf (SInt 9)) /\
+    get_dpath (Dict (sd_data s)) p = Some (Leaf (SInt 3)).
+Proof.
+  intro p. do 13 eexists. do 15 C06n_keep C06n_vm.
+  eapply C06_earlier_include_wins_deep; eassumption.
+Qed.
+
+(* the first include of the root: nothing is earlier *)
+Theorem C06_first_include_wins_deep : forall fs root com c s c' u0 pr0 i d n path suf u pr p v,
+  fs_wf fs = true ->
+  read_plain fs root true com c = Ok (s, c') ->
+  fs_lookup (norm_path root) fs = Some u0 -> parse_unit com root c u0 = Ok pr0 ->
+  sd_inc (pr_sd pr0) = (i, (d, n, path)) :: suf ->
+  fs_lookup (norm_path path) fs = Some u -> parse_unit com path (pr_count pr0) u = Ok pr ->
+  forallb ordinary_key p = true -> leaf_ok p v = true ->
+  falls_off (Dict (sd_data (pr_sd pr0))) p = true ->
+  get_dpath (Dict (sd_data (pr_sd pr))) p = Some (Leaf v) ->
+  get_dpath (Dict (sd_data s)) p = Some (Leaf v).
+Proof. exact first_include_wins_deep. Qed.
+Print Assumptions C06_first_include_wins_deep.
+Example C06_first_include_wins_deep_nonvacuous :
+  (* sub.y: 2 in a.json (first include), 3 in b.json (later); the root's sub has no y *)
+  let p := C06n_p2 "sub" "y" in
+  exists s c' u0 i d n suf u pr,
+    fs_wf C06n_fs = true /\
+    read_plain C06n_fs C06n_root true true (-1)%Z = Ok (s, c') /\
+    fs_lookup (norm_path C06n_root) C06n_fs = Some u0 /\ parse_unit true C06n_root (-1)%Z u0 = Ok C06n_pr0 /\
+    sd_inc (pr_sd C06n_pr0) = (i, (d, n, C06n_s "/a.json")) :: suf /\
+    fs_lookup (norm_path (C06n_s "/a.json")) C06n_fs = Some u /\
+    parse_unit true (C06n_s "/a.json") (pr_count C06n_pr0) u = Ok pr /\
+    forallb ordinary_key p = true /\ leaf_ok p (SInt 2) = true /\
+    falls_off (Dict (sd_data (pr_sd C06n_pr0))) p = true /\
+    get_dpath (Dict (sd_data (pr_sd pr))) p = Some (Leaf (SInt 2)) /\
+    get_dpath (Dict (sd_data (pr_sd (C06n_parse "/b.json" 3%Z)))) p = Some (Leaf (SInt 3)) /\
+    get_dpath (Dict (sd_data s)) p = Some (Leaf (SInt 2)).
+Proof.
+  intro p. do 9 eexists. do 12 C06n_keep C06n_vm.
+  eapply C06_first_include_wins_deep; eassumption.
+Qed.
+
+(* why the targets must fall off ABOVE the path too (a leaf above it blocks, theorem 2's finding) and AT it
+   (a holder of higher precedence wins): in C06n_fs the leaf  blk 7  of a.json blocks the path blk.m of c.dict
+   (included by a.json) and of b.json (a later include of the root) *)
+Example C06_leaf_above_blocks :
+  let p := C06n_p2 "blk" "m" in
+  get_dpath (Dict (sd_data (pr_sd (C06n_parse "/c.dict" 3%Z)))) p = Some (Leaf (SInt 4)) /\
+  get_dpath (Dict (sd_data (pr_sd (C06n_parse "/b.json" 3%Z)))) p = Some (Leaf (SInt 3)) /\
+  falls_off (Dict (sd_data (pr_sd (C06n_parse "/a.json" 2%Z)))) p = false /\
+  clear_above (Dict (sd_data (pr_sd (C06n_parse "/a.json" 2%Z)))) p = false /\
+  C06n_at (C06n_p2 "blk" "m") = None /\ C06n_at (C06n_p1 "blk") = Some (Leaf (SInt 7)).
+Proof. C06n_check. Qed.
+
+(* why EVERY key of the path must be ordinary: a.dict's comment inside sub has the text of the root's comment
+   inside sub, so after the merge the clean-up of that level deletes a.dict's placeholder entry as a doublette
+   (the nested analogue of C06_placeholder_key_can_vanish).  The targets are clear above the path, the path
+   leads to a leaf in a.dict's own parse, and to nothing in the result. *)
+Example C06_nested_placeholder_key_can_vanish :
+  let fs := [ (C06n_s "/r.dict", FNative (C06n_s "#include 'a.dict'
+sub
+{
+    // note
+    x 1;
+}
+"));
+              (C06n_s "/a.dict", FNative (C06n_s "sub
+{
+    // note
+    y 2;
+}
+")) ] in
+  let p := C06n_p2 "sub" "LINECOMMENT000002" in
+  forallb ordinary_key p = false /\ ordinary_key (KS (C06n_s "sub")) = true /\
+  (* a.dict is parsed with the counter at 1 in this run *)
+  match parse_unit true (C06n_s "/a.dict") 1%Z (FNative (C06n_s "sub
+{
+    // note
+    y 2;
+}
+")) with
+  | Ok pr => get_dpath (Dict (sd_data (pr_sd pr))) p <> None
+  | Raise _ => False
+  end /\
+  match fs_lookup (C06n_s "/r.dict") fs with
+  | Some u => match parse_unit true (C06n_s "/r.dict") (-1)%Z u with
+              | Ok pr0 => clear_above (Dict (sd_data (pr_sd pr0))) p = true
+              | Raise _ => False
+              end
+  | None => False
+  end /\
+  match read_plain fs (C06n_s "/r.dict") true true (-1)%Z with
+  | Ok (s, _) => get_dpath (Dict (sd_data s)) p = None /\
+                 get_dpath (Dict (sd_data s)) (C06n_p2 "sub" "y") = Some (Leaf (SInt 2))
+  | Raise _ => False
+  end.
+Proof. C06n_check. Qed.
+
+(* reach_where is run_reach with the targets constrained: it implies run_reach (so the closure theorems
+   C06_root_includes_reached / C06_reachable_files_closed say which files there are), and with the trivial
+   constraint it IS run_reach *)
+Theorem C06_reach_where_is_reached : forall fs com N f chain parent count f' chain' path pr,
+  reach_where fs com N f chain parent count f' chain' path pr ->
+  run_reach fs com f chain parent count f' chain' path pr.
+Proof. exact reach_where_run_reach. Qed.
+Print Assumptions C06_reach_where_is_reached.
+Theorem C06_reached_is_reach_where : forall fs com f chain parent count f' chain' path pr,
+  run_reach fs com f chain parent count f' chain' path pr ->
+  reach_where fs com (fun _ => True) f chain parent count f' chain' path pr.
+Proof. exact run_reach_reach_where. Qed.
+Print Assumptions C06_reached_is_reach_where.
+Example C06_reach_where_is_reached_nonvacuous :
+  let p := C06n_p3 "sub" "deep" "r" in
+  exists f' chain' pr,
+    reach_where C06n_fs true (fun d => falls_off (Dict d) p = true)
+                (S (length C06n_fs)) [] (pr_sd C06n_pr0) (pr_count C06n_pr0) f' chain' (C06n_s "/c.dict") pr /\
+    run_reach C06n_fs true (S (length C06n_fs)) [] (pr_sd C06n_pr0) (pr_count C06n_pr0) f' chain' (C06n_s "/c.dict") pr /\
+    reach_where C06n_fs true (fun _ => True)
+                (S (length C06n_fs)) [] (pr_sd C06n_pr0) (pr_count C06n_pr0) f' chain' (C06n_s "/c.dict") pr.
+Proof.
+  intro p. do 3 eexists.
+  C06n_keep ltac:(eapply RW_trans; [C06n_direct 0%nat | C06n_vm | C06n_vm |
+                                    eapply RW_direct; [C06n_direct 0%nat | C06n_vm | C06n_vm]]).
+  pose proof (C06_reach_where_is_reached _ _ _ _ _ _ _ _ _ _ _ Hyp) as Hr.
+  split; [exact Hr | exact (C06_reached_is_reach_where _ _ _ _ _ _ _ _ _ _ Hr)].
+Qed.
+
+(* fs_wf is a condition on JSON units only: a file system of native units satisfies it *)
+Theorem C06_native_fs_wf : forall fs,
+  forallb (fun pu => match snd pu with FNative _ => true | FJson _ => false end) fs = true -> fs_wf fs = true.
+Proof. exact fs_wf_native. Qed.
+Print Assumptions C06_native_fs_wf.
+Example C06_native_fs_wf_nonvacuous :
+  let fs := [ (C06n_s "/r.dict", FNative (C06n_s "#include 'a.dict'
+sub { x 1; }
+")); (C06n_s "/a.dict", FNative (C06n_s "sub { x 2; y 2; }
+")) ] in
+  forallb (fun pu => match snd pu with FNative _ => true | FJson _ => false end) fs = true /\ fs_wf fs = true.
+Proof.
+  intro fs. C06n_keep C06n_vm. exact (C06_native_fs_wf fs Hyp).
+Qed.
